@@ -20,6 +20,21 @@ CONSTANTS
   TopUps = {3}
   Donations = {}
   Creators = {"u1"}
+  Proposers = {}
+  GovOn = FALSE
+  InitCP = 0
+  MaxProps = 0
+  CPTotals = {}
+  Deposits = {}
+  GovMinDep = 0
+  GovThr = 0
+  GovDP = 0
+  GovVP = 0
+  CancelNum = 0
+  CancelDen = 1
+  BurnPre = FALSE
+  BurnQ = FALSE
+  BurnV = FALSE
 VIEW View
 INVARIANTS
   Inv_C12_Farm_Accepted
@@ -30,6 +45,7 @@ INVARIANTS
   Inv_C06_ProRata
   Inv_C13_QueueSound
   Inv_C13_QueueComplete
+  Inv_X05_SupplyClosed
 PROPERTIES
   Act_Gh_C06_Budget
   Act_Gh_C06_Funded
@@ -47,4 +63,7 @@ PROPERTIES
   Act_C06_TouchAccrues
   Act_C06_RefundOnce
   Act_C13_OnceOnTime
+  Act_X06_AdjustNoPanic
+  Act_X06_AdjustGuard
+  Act_X05_CommunityPool
 CHECK_DEADLOCK FALSE
